@@ -86,12 +86,11 @@ def _psn_log(S_, kind):
 c.exit_check(_psn_log)
 
 # config.is_app_frame through the action context (C19 proves ConfigService.is_app_frame itself)
-c = contract(SA, "SnapshotActionContext.is_app_frame", [])
+c = contract(SA, "SnapshotActionContext.is_app_frame", [], coarse=True)
 c.param("self", OBJ("SnapshotActionContext")).param("filename", STR)
 c.result = TUPLE(BOOL, OPT(STR))
 c.modifies = lambda S_: []
 c.logged = "is_app_frame"
-c.coarse = True
 
 
 # =============================================================================== FrameCollector._process_frame
